@@ -450,7 +450,7 @@ def run(ctx):
     quick = ctx.quick()
     rng = ctx.rng
     nprog = 60 if quick else 400
-    nsched = 150 if quick else 2000
+    nsched = 120 if quick else 2000
     nthread = 16 if quick else 100
     rounds = 6 if quick else 10
     progs = [gen_prog(rng, i) for i in range(nprog)]
@@ -540,11 +540,11 @@ def run(ctx):
         payloads.append(({'mode': 'gated', 'progs': [progs[i] for i in pick], 'parked': 2, 'gate_step': [rng.choice(ks), 0],
                           'gate_where': [None, 'ignore.isinstance'], 'release': rng.choice(['fifo', 'fifo', 'lifo'])}, pick))
     # long sequential batches in which every document is dropped before the next is loaded
-    for n in range(4 if quick else 20):
+    for n in range(3 if quick else 20):
         pool_ = [i for i in small if i in usable]
         if not pool_:
             break
-        order = [rng.randrange(len(pool_)) for _ in range(250 if quick else 600)]
+        order = [rng.randrange(len(pool_)) for _ in range(200 if quick else 600)]
         payloads.append(({'mode': 'batch', 'progs': [progs[i] for i in pool_], 'order': order}, pool_))
     ndeep = 16 if quick else 120
     for n in range(ndeep):
